@@ -106,7 +106,7 @@ PLAN["C15"] = {
     "feature": "c15",
     "exhaustive": False,
     "bounds": "sequential semantics: every history of <= 10 inserts + one lookup on 1 table x 1 bucket (forces the full-bucket "
-              "replacement path); every history of <= 2 inserts + lookup on 1x2 and of 1 insert + lookup on 2x1, 2x2, 3x5 (routing with adversarially aligned "
+              "replacement path); every history of <= 2 inserts + lookup on 1x2 and of 1 insert + lookup on 2x1, 3x1 (quick), 2x2, 3x5 (thorough) (routing with adversarially aligned "
               "keys; longer routed histories exhaust memory: symbolic routing through heap-allocated tables); one insert + lookups from an arbitrary bucket satisfying the representation invariant (histories of any "
               "length on one bucket, by induction)",
     "outside": ["thread interleavings: Kani has no thread model; every operation of TranspositionTableAccess holds exactly one RwLock "
@@ -117,10 +117,11 @@ PLAN["C15"] = {
     "insts": [
         Inst("c15::history_1x1_n9", crate="engine", sub="C15.a", tiers=("quick",), unwind=12, timeout=3600, mem_gb=12, functions=_c15_fn, bounds="1x1, <= 9 inserts, symbolic keys/entries/query"),
         Inst("c15::history_1x1_n10", crate="engine", sub="C15.a", tiers=("thorough",), unwind=13, timeout=7200, mem_gb=16, functions=_c15_fn, bounds="1x1, <= 10 inserts"),
-        Inst("c15::routed_2x2_n1", crate="engine", sub="C15.a", unwind=10, timeout=3600, mem_gb=12, functions=_c15_fn, bounds="2 tables x 2 buckets, <= 1 insert + lookup"),
-        Inst("c15::routed_1x2_n2", crate="engine", sub="C15.a", unwind=10, timeout=3600, mem_gb=12, functions=_c15_fn, bounds="1 x 2, <= 2 inserts + lookup"),
-        Inst("c15::routed_2x1_n1", crate="engine", sub="C15.a", unwind=10, timeout=3600, mem_gb=12, functions=_c15_fn, bounds="2 x 1, <= 1 insert + lookup"),
-        Inst("c15::routed_3x5_n1", crate="engine", sub="C15.a", tiers=("thorough",), unwind=10, timeout=3600, mem_gb=12, functions=_c15_fn, bounds="3 x 5, <= 1 insert + lookup"),
+        Inst("c15::routed_2x2_n1", crate="engine", sub="C15.a", tiers=("thorough",), unwind=10, timeout=3600, mem_gb=24, functions=_c15_fn, bounds="2 tables x 2 buckets, <= 1 insert + lookup"),
+        Inst("c15::routed_3x1_n1", crate="engine", sub="C15.a", unwind=10, timeout=3600, mem_gb=20, functions=_c15_fn, bounds="3 tables x 1 bucket (a table count that is not a power of two), <= 1 insert + lookup"),
+        Inst("c15::routed_1x2_n2", crate="engine", sub="C15.a", unwind=10, timeout=3600, mem_gb=14, functions=_c15_fn, bounds="1 x 2, <= 2 inserts + lookup"),
+        Inst("c15::routed_2x1_n1", crate="engine", sub="C15.a", unwind=10, timeout=3600, mem_gb=14, functions=_c15_fn, bounds="2 x 1, <= 1 insert + lookup"),
+        Inst("c15::routed_3x5_n1", crate="engine", sub="C15.a", tiers=("thorough",), unwind=10, timeout=3600, mem_gb=24, functions=_c15_fn, bounds="3 x 5, <= 1 insert + lookup"),
         Inst("c15::step_from_arbitrary_bucket", crate="engine", sub="C15.b", unwind=10, timeout=3600, mem_gb=12, functions=_c15_fn + ("verif_hooks::Table::from_slots/slot",),
              bounds="arbitrary bucket (8 symbolic slots under the representation invariant), one insert, symbolic lookups"),
         Inst("c15::reach_witness", crate="engine", sub="vacuity", unwind=10, timeout=600, expect="fail"),
@@ -220,6 +221,10 @@ PLAN["C01"] = {
         _c01_gen("gen_kn_k_black_complete", 1, 8, ('thorough',), 3600, 10, 16),
         _c01_gen("gen_kn_kn_white_sound", 1, 8, ('thorough',), 3600, 12, 16),
         _c01_gen("gen_kn_kn_white_complete", 1, 8, ('thorough',), 3600, 12, 16),
+        _c01_gen("gen_knn_k_white_sound", 2, 8, ('thorough',), 7200, 14, 24),
+        _c01_gen("gen_knn_k_white_complete", 2, 8, ('thorough',), 7200, 14, 24),
+        _c01_gen("gen_kpp_k_black_sound", 2, 8, ('thorough',), 7200, 14, 16),
+        _c01_gen("gen_kpp_k_black_complete", 2, 8, ('thorough',), 7200, 14, 16),
         _c01_gen("gen_kr_k_white_sound", 1, 14, ('thorough',), 7200, 14, 22),
         _c01_gen("gen_kr_k_white_complete", 1, 14, ('thorough',), 7200, 14, 22),
         _c01_gen("gen_kr_k_black_sound", 1, 14, ('thorough',), 7200, 14, 22),
